@@ -8,9 +8,24 @@ CHECKS = {
  "C02": dict(engine="ledger", cat="exploration", tech="runtime monitoring: share-sum/association/staker-list invariants on every snapshot, bystander-value and round-trip oracles with exact rationals, metamorphic test of the pure conversion functions",
    text="After every step the four share invariants are recomputed from raw store bytes for every pool; every delegate/undelegate is checked against every other delegator's redeemable value (exact integer arithmetic); generated round trips at every reachable exchange rate; 20 000 triples through SharesFromTokens/TokensFromShares per run.",
    note="trusts: proto decoding; pool-state classes observed are listed in evidence; checked-arithmetic overflow panics of the math library are counted as out-of-domain, not judged", ref="DESIGN.md §5 C02"),
+ "C16": dict(engine="ledger", cat="exploration", tech="runtime monitoring: shadow model of the three per-epoch queues and pending lists judged at every BeginBlock/EndBlock, hold-decision oracle at every undelegation",
+   text="Every queue entry is recorded with the epoch it was registered for (e+N at that time, or the operator's opt-out epoch); each BeginBlock/EndBlock is judged for entries leaving early/late, pending lists equal to the drained queue, effects applied exactly once (hold -1, key removal completed, address pruned), no stale queue, and the hold/no-hold decision for every new undelegation.",
+   note="trusts: proto decoding; governance parameter changes are executed through the message router like a passed proposal; one unspecified edge (no current key but previous key still active) is observed, not judged", ref="DESIGN.md §5 C16"),
  "C03": dict(engine="ledger", cat="exploration", tech="runtime monitoring: shadow model of pending undelegation records (creation, hold, release) checked at every EndBlock, plus index-bijection and aggregate invariants on every snapshot",
    text="A shadow model remembers every record with its original completion height; every EndBlock is judged for early / late / double / lost releases and exact crediting; acceptance of in-range undelegations and LST withdrawals is asserted for every operator lifecycle state the workload reaches; index entries and the three pending aggregates are re-derived from the records after every step.",
    note="trusts: proto decoding; hold counts are read after the block's EndBlock (the delegation EndBlocker runs after dogfood's); NST withdrawal acceptance is not judged (extra validator-registry precondition)", ref="DESIGN.md §5 C03"),
+ "C04": dict(engine="ledger", cat="exploration", tech="runtime monitoring: before/after full-snapshot oracle around every slash (keeper step and BeginBlock evidence/downtime), exact per-item reference arithmetic, replay detection",
+   text="Every executed slash is compared item by item with a reference (p interval from exact rationals, floor(p*pool), min(floor(p*Amount), left) for at-risk records, byte-identity for everything else, execution info = observed reductions); rejected and replayed slashes must leave all eight restaking stores byte-identical.",
+   note="trusts: oracle keeper's price getter for the reference value V (C05 checks pricing independently); same-height infraction with same-block undelegations is not generated (unreachable in production: slashes run in BeginBlock); astronomically large pools (arithmetic overflow) are counted out-of-domain", ref="DESIGN.md §5 C04"),
+ "C05": dict(engine="ledger", cat="exploration", tech="runtime monitoring: independent big-integer reference of the USD value formula evaluated after every epoch-closing BeginBlock for every AVS/operator",
+   text="After each BeginBlock that closed an epoch, every (AVS, operator) value triple and every AVS total is recomputed from raw store bytes (pools, shares, AVS registry, oracle rounds) with exact integer arithmetic and compared for equality; extra AVSs with random asset subsets / min self-delegation / epoch identifiers are registered through the real precompile and prices are moved.",
+   note="trusts: oracle params getter for the asset->token mapping; the token equivalent of the self share may be either floor(exact) or floor(18-decimal-rounded quotient) (fixed-point semantics, ±1 base unit); AVSs with an unpriced asset are not judged", ref="DESIGN.md §5 C05"),
+ "C06": dict(engine="ledger", cat="exploration", tech="runtime monitoring: reference top-set computation + cumulative consensus-side set + CometBFT's own ValidatorSet.UpdateWithChangeSet applied to every returned update list",
+   text="Every EndBlock's update list is applied to (a) the previous stored set, (b) a cumulative consensus-side set kept by the monitor, (c) a real CometBFT ValidatorSet; all must equal the reference eligible top set and the stored set/total power; non-epoch blocks must return nothing.",
+   note="trusts: proto decoding; the workload keeps one protected validator so that the set never legitimately empties (an empty set is a CometBFT consensus failure and ends the history)", ref="DESIGN.md §5 C06"),
+ "C07": dict(engine="ledger", cat="exploration", tech="runtime monitoring: five-index consistency invariants on every snapshot + shadow model of ever-active consensus addresses with resolvability deadlines",
+   text="After every step the five key indexes are cross-checked from raw bytes; every key-setting operation is judged against the pre-state registry; a shadow model tracks addresses that were in the stored validator set and asserts resolvability until the closing block of epoch e+N and pruning afterwards.",
+   note="trusts: proto decoding; never-active keys carry no requirement (statement silent); two recorded findings (addresses that left the stored set earlier are dropped at once)", ref="DESIGN.md §5 C07"),
 }
 NOT_YET = {}
 props=[json.loads(l)["id"] for l in open("/verif/properties.jsonl")]
@@ -27,7 +42,7 @@ m=dict(version=1, setup_cmd="./setup.sh",
   hooks=dict(guard="verif", enable="go build -tags verif (harness/go.mod replaces github.com/ExocoreNetwork/exocore => /repo)",
      baseline_off_cmd="cd /repo && go build ./... && go test -vet=off -count=1 -timeout 25m ./...",
      source_commits=[h.split()[0] for h in hooks], add_only=True),
-  engines=[dict(name="ledger", path="harness/eng/ledger.go", serves_properties=["C01","C02","C03"], kind_free_text="in-process full-app ABCI driver + seeded hostile workload + per-step snapshot monitors")],
+  engines=[dict(name="ledger", path="harness/eng/ledger.go", serves_properties=["C01","C02","C03","C04","C05","C06","C07","C16"], kind_free_text="in-process full-app ABCI driver + seeded hostile workload + per-step snapshot monitors")],
   checks=checks, not_applicable=na,
   notes="All checks: ./check <id> <tier>; exit 0 held / 1 violation (VIOLATION line) / 2 inconclusive / 3 build failure. known_findings.json lists recorded defects and fix: commits.")
 json.dump(m, open("/verif/MANIFEST.json","w"), indent=1)
